@@ -256,21 +256,14 @@ func (l *linkServiceBase) dispatchData(pkt *defn.Pkt) {
 		return
 	}
 
-	// Only if from a local face (and therefore from a producer), dispatch to
-	// threads matching every prefix. We need to do this because producers do
-	// not attach PIT tokens to their data packets.
-	if l.Scope() == defn.Local {
-		for i, match := range fw.HashNameToAllPrefixFwThreads(pkt.Name) {
-			if match {
-				core.LogTrace(l, "Prefix dispatched local-origin Data packet to thread ", i)
-				dispatch.GetFWThread(i).QueueData(pkt)
-			}
+	// Without a PIT token of ours (producers do not attach PIT tokens to their data
+	// packets, and a remote forwarder need not echo ours) the pending Interests this
+	// Data can satisfy may be held by the thread of any prefix of its name (CanBePrefix),
+	// so dispatch to the threads matching every prefix.
+	for i, match := range fw.HashNameToAllPrefixFwThreads(pkt.Name) {
+		if match {
+			core.LogTrace(l, "Prefix dispatched Data packet to thread ", i)
+			dispatch.GetFWThread(i).QueueData(pkt)
 		}
-		return
 	}
-
-	// Only exact-match for now (no CanBePrefix)
-	thread := fw.HashNameToFwThread(pkt.Name)
-	core.LogTrace(l, "Dispatched Data to thread ", thread)
-	dispatch.GetFWThread(thread).QueueData(pkt)
 }
